@@ -13,6 +13,9 @@ import PgProofs.EvoAlign
 import PgProofs.EvoAlignU
 import PgProofs.EvoPure
 import PgProofs.EvoPermP
+import PgProofs.EvoOrderPerm
+import PgProofs.EvoLaws
+import PgModel.EvoSched
 import PgProofs.EvoNumP
 import PgProofs.EvoPropP
 import Mathlib.Tactic.NormNum
@@ -195,6 +198,31 @@ theorem C14_primitive_recOrder (g : GSpec) : ClosedAligned g (recOrder g) := by
   rcases recOrder_spec g pop st out st' h with ⟨rfl, _⟩ | ⟨_, hall⟩
   · exact hp
   · exact fun y hy => ⟨(hall y hy).1, (hall y hy).2.1⟩
+
+/-- every permutation recombinator (any `permutate` method that only reads the oracle): parents or
+children that went through `from_dict`. Instances: Order, PartiallyMapped, Cycle. -/
+theorem C14_primitive_recPerm (permute : List Nat → List Nat → M (List Nat × List Nat))
+    (hp : ∀ vx vy, OO (permute vx vy)) (g : GSpec) : ClosedAligned g (recPerm permute g) := by
+  intro pop st out st' hpop h
+  rcases recPerm_spec permute hp g pop st out st' h with ⟨rfl, _⟩ | ⟨_, hall⟩
+  · exact hpop
+  · exact fun y hy => ⟨(hall y hy).1, (hall y hy).2.1⟩
+
+theorem C14_primitive_recPMX (g : GSpec) : ClosedAligned g (recPMX g) :=
+  C14_primitive_recPerm permutePMX OO_permutePMX g
+
+theorem C14_primitive_recCycle (g : GSpec) : ClosedAligned g (recCycle g) :=
+  C14_primitive_recPerm permuteCycle OO_permuteCycle g
+
+/-- Order crossover proper: for two arrangements of the same distinct items and any cut points
+`start ≤ stop ≤ size` (any random draw), both children are arrangements of those items — `from_dict`
+has nothing to reject and the sub-choice lookup cannot miss. -/
+theorem C14_order_children_are_permutations (vx vy : List Nat) (hn : vx.Nodup) (hp : vy.Perm vx)
+    (start stop : Nat) (h1 : start ≤ stop) (h2 : stop ≤ vx.length) :
+    (orderChild vx vy start stop).Perm vx ∧ (orderChild vy vx start stop).Perm vx := by
+  refine ⟨orderChild_perm vx vy hn hp start stop h1 h2, ?_⟩
+  have := orderChild_perm vy vx (hp.nodup_iff.mpr hn) hp.symm start stop h1 (by rw [hp.length_eq]; exact h2)
+  exact this.trans hp
 
 /-! ## Numeric recombinators `Average` / `WeightedAverage` (exact rationals) -/
 
@@ -383,6 +411,103 @@ theorem C14_pure_recOrder (g : GSpec) : Pure g (recOrder g) := by
   rcases recOrder_spec g pop st out st' hr with ⟨rfl, rfl⟩ | ⟨hle, hall⟩
   · exact ⟨Nat.le_refl _, fun y hy => ⟨hv y hy, Or.inl hy⟩⟩
   · exact ⟨hle, fun y hy => ⟨(hall y hy).1, Or.inr (hall y hy).2.2⟩⟩
+
+theorem C14_pure_recPerm (permute : List Nat → List Nat → M (List Nat × List Nat))
+    (hp : ∀ vx vy, OO (permute vx vy)) (g : GSpec) : Pure g (recPerm permute g) := by
+  intro pop st out st' hv hr
+  rcases recPerm_spec permute hp g pop st out st' hr with ⟨rfl, rfl⟩ | ⟨hle, hall⟩
+  · exact ⟨Nat.le_refl _, fun y hy => ⟨hv y hy, Or.inl hy⟩⟩
+  · exact ⟨hle, fun y hy => ⟨(hall y hy).1, Or.inr (hall y hy).2.2⟩⟩
+
+/-! ### Mutators with a `where` filter: the guarantees hold for every filter -/
+
+theorem C14_primitive_mutUniformW (w : Where) (fuel : Nat) (g : GSpec) : ClosedAligned g (mutUniformW w fuel g) :=
+  fun pop st out st' hp h => mutUniformW_aligned w fuel g pop st out st' hp h
+
+theorem C14_primitive_mutUniformW_closed (w : Where) (fuel : Nat) (g : GSpec) : Closed g (mutUniformW w fuel g) :=
+  fun pop st out st' hp h y hy => ((mutUniformW_spec w fuel g pop st out st' hp h).2 y hy).1
+
+theorem C14_primitive_mutSwapW (w : Where) (g : GSpec) : ClosedAligned g (mutSwapW w g) :=
+  fun pop st out st' hp h => mutSwapW_aligned w g pop st out st' hp h
+
+theorem C14_primitive_mutSwapW_closed (w : Where) (g : GSpec) : Closed g (mutSwapW w g) :=
+  fun pop st out st' hp h y hy => ((mutSwapW_spec w g pop st out st' hp h).2 y hy).1
+
+theorem C14_pure_mutUniformW (w : Where) (fuel : Nat) (g : GSpec) : Pure g (mutUniformW w fuel g) := by
+  intro pop st out st' hv hr
+  obtain ⟨h1, h2⟩ := mutUniformW_spec w fuel g pop st out st' hv hr
+  exact ⟨h1, fun y hy => ⟨(h2 y hy).1, Or.inr (h2 y hy).2⟩⟩
+
+theorem C14_pure_mutSwapW (w : Where) (g : GSpec) : Pure g (mutSwapW w g) := by
+  intro pop st out st' hv hr
+  obtain ⟨h1, h2⟩ := mutSwapW_spec w g pop st out st' hv hr
+  exact ⟨h1, fun y hy => ⟨(h2 y hy).1, Or.inr (h2 y hy).2⟩⟩
+
+/-- a filter that admits subchoices only: the multi-choice node itself is not counted (2 nodes instead
+of 3), the run redraws subchoice 1 under the distinct constraint. -/
+example : ∃ out st', mutUniformW (fun n => n.kind == 3) 3 f21Spec
+    [{ uid := 0, dna := f21Dna, fit := some 1 }]
+    { oracle := [.idx .choice 2 1, .idx .choice 1 0], nextUid := 1 } = .ok (out, st') ∧
+    out.map (fun y => valid f21Spec y.dna) = [true] :=
+  ⟨_, _, rfl, rfl⟩
+
+/-! ## Algebraic laws of the composition operators (what the class documentation promises) -/
+
+/-- `Identity() >> x` and `x >> Identity()` are `x`. -/
+theorem C14_law_seq_identity (e : OpExpr) :
+    eval (.seq .identity e) = eval e ∧ eval (.seq e .identity) = eval e :=
+  ⟨seq_identity_left e, seq_identity_right e⟩
+
+/-- `>>` is associative (also in its use of the random stream and of the uid counter). -/
+theorem C14_law_seq_assoc (a b c : OpExpr) : eval (.seq (.seq a b) c) = eval (.seq a (.seq b c)) :=
+  seq_assoc a b c
+
+/-- `+` is associative. -/
+theorem C14_law_concat_assoc (a b c : OpExpr) :
+    eval (.concat (.concat a b) c) = eval (.concat a (.concat b c)) := concat_assoc a b c
+
+/-- `x ** 0 = Identity()`, `x ** (k + 1) = x >> x ** k`, `x ** 1 = x`. -/
+theorem C14_law_power (e : OpExpr) (k : Nat) :
+    eval (.power e 0) = eval .identity ∧ eval (.power e (k + 1)) = eval (.seq e (.power e k)) ∧
+    eval (.power e 1) = eval e := ⟨power_zero e, power_succ e k, power_one e⟩
+
+/-- `x * 0` returns nothing, `x * (k + 1) = x + x * k`. -/
+theorem C14_law_repeat (e : OpExpr) (k : Nat) (p : Pop) :
+    eval (.repeat_ e 0) p = pure [] ∧ eval (.repeat_ e (k + 1)) = eval (.concat e (.repeat_ e k)) :=
+  ⟨repeat_zero e p, repeat_succ e k⟩
+
+/-- length law of `*`: if `x` returns `c` items on `p` (whatever it draws), `x * k` returns `k * c`. -/
+theorem C14_law_repeat_length (e : OpExpr) (p : Pop) (c : Nat)
+    (hc : ∀ st out st', eval e p st = .ok (out, st') → out.length = c) (k : Nat) (st : St) (out : Pop) (st' : St)
+    (h : eval (.repeat_ e k) p st = .ok (out, st')) : out.length = k * c :=
+  repeat_length e p c hc k st out st' h
+
+/-- length laws of `[...]`: an index gives one item, `a:b:step` the Python slice length. -/
+theorem C14_law_slice_length (l : Pop) (st : St) (out : Pop) (st' : St) :
+    (∀ i, applySlice (.index i) l st = .ok (out, st') → out.length = 1) ∧
+    (∀ start stop step, 0 < step → applySlice (.range start stop step) l st = .ok (out, st') →
+      out.length = (min (stop.getD l.length) l.length - min (start.getD 0) l.length + step - 1) / step) :=
+  ⟨fun i h => slice_index_length i l st out st' h,
+   fun start stop step hs h => slice_range_length start stop step hs l st out st' h⟩
+
+/-- `x.with_prob(0.0)` returns its input, `x.with_prob(1.0)` applies `x` (after one draw). -/
+theorem C14_law_with_prob (e : OpExpr) (p : Pop) (st : St) (out : Pop) (st' : St) :
+    (∀ limit, eval (.choice [e] [0] limit) p st = .ok (out, st') → out = p) ∧
+    (eval (.choice [e] [1] none) p st = .ok (out, st') →
+      ∃ r s1, nextRandom st = .ok (r, s1) ∧ eval e p s1 = .ok (out, st')) :=
+  ⟨fun limit h => with_prob_zero e limit p st out st' h, with_prob_one e p st out st'⟩
+
+/-- `x.until_change(1)` is `x`. -/
+theorem C14_law_until_one (e : OpExpr) : eval (.untilChange e 0) = eval e := until_one_attempt e
+
+/-- step-driven scalars: constants ignore the step, `STEP` is the step, the arithmetic is pointwise. -/
+theorem C14_sched_pointwise (a b : Sched) (c : Int) (s : Nat) :
+    (Sched.const c).eval s = some c ∧ Sched.step.eval s = some (s : Int) ∧
+    (∀ x y, a.eval s = some x → b.eval s = some y → (Sched.add a b).eval s = some (x + y) ∧
+      (Sched.mul a b).eval s = some (x * y) ∧ (Sched.sub a b).eval s = some (x - y)) := by
+  refine ⟨rfl, rfl, ?_⟩
+  intro x y hx hy
+  simp [Sched.eval, hx, hy]
 
 /-- Determinism: an operation is a function of its inputs, its oracle stream and the uid counter
 (seeded operators: of seed and inputs) — in the model this is functionality of `eval`. -/
